@@ -153,4 +153,24 @@ func init() {
 			"not decided: 'and nothing else', html/css/svg/xml Keep* options, semantic guarantees under every option combination, the CLI flag mapping, tokens already present in the input",
 		},
 	})
+	registerProp(&PropSpec{
+		ID:     "C19",
+		Custom: []string{"partial"},
+		Partial: []string{modPath + "/cmd/minify.minify"},
+		Units:  []string{modPath + ".(*M).MinifyMimetype", modPath + ".(*M).Minify"},
+		Notes: []string{
+			"site assertions over the ghost call trace of the real cmd/minify minify(t): [C19-fallback-original] when the library fails, the buffer copied to the destination is created over exactly the bytes that io.ReadAll returned (content-key equality across the failed m.Minify call, which rests on A-frame: a minifier writes bytes only into its writer's buffer, its reader's exposed buffer, or fresh memory - carried through the proved contracts of (*M).Minify/MinifyMimetype); [C20-backup-removed-only-after-success] os.Remove of the backup happens only on the path where io.Copy returned nil and only for the name dst+\".bak\"",
+			"try.Do(f) is modelled as one execution of f's body (A-try); the operating system and std library calls are trace events (A-os)",
+			"not decided: task creation (createTasks: closures over fs.WalkDir), destination computation, filters, the worker pool, exit status plumbing, watch mode, attribute preservation, bundles (concatFileReader), 'modifies no other file', and the leftover-backup clause (design finding F8: hard-linked src/dst leaves <src>.bak because cleanup compares names while the rename is decided by SameFile - not derived by this machinery)",
+		},
+	})
+	registerProp(&PropSpec{
+		ID:     "C20",
+		Custom: []string{"partial"},
+		Partial: []string{modPath + "/cmd/minify.minify"},
+		Notes: []string{
+			"ordering obligations on the real minify(t) as site assertions over the ghost trace: the destination is opened (truncated) immediately after all inputs have been opened; the backup <dst>.bak is removed only after a successful copy (io.Copy error nil); on a failed copy the backup is restored by rename",
+			"A-os: rename is atomic; a crash happens between library calls. The full crash invariant (for every instant, original or backup or complete output exists) needs a ghost file system relating path strings and contents and is NOT established; real system-call granularity and multi-task runs are not decided",
+		},
+	})
 }
